@@ -10,7 +10,7 @@ import NemoVerif.Generated.LlmFlowsV1
     {"m":"C16.genlog","log":[ev,…]}                       → GenLog.compute on the generated constants
     {"m":"C16.turn","cfg":{…},"opts":null|[cats],"user":s,"bot":null|s,"dialog":{…}}
                                                           → PipelineOpts.turn on the generated guards, plus GenLog.compute of its log
-    {"m":"C16.interp","input":[irail,…],"output":[irail,…],"opts":null|[cats],"user":s,"bot":null|s,"llm_text":s,"refusal":s}
+    {"m":"C16.interp","input":[irail,…],"output":[irail,…],"opts":null|[cats],"user":s,"bot":null|s,"llm_text":s,"refusal":s,"refusal_tpl":s}
                                                           → RailsInterp.drive: the loop of `generate_events` around the interpreter model
                                                             (V1Interp) on the GENERATED llm_flows.co program + rail sub-flows of the shipped
                                                             shapes; irail = {"name","action","kind":"check"|"append"|"prepend"|"replace","needles":[…]|"text":s}
@@ -232,7 +232,7 @@ def handleInterp (j : Json) : Except String Json := do
     | .ok (.arr a) => a.toList.mapM irailOfJson
     | _ => pure []
   let s : Setup := { input := ← rails "input", output := ← rails "output", refusal := (optStr j "refusal").getD "refused",
-                     llmText := (optStr j "llm_text").getD "" }
+                     llmText := (optStr j "llm_text").getD "", refusalTpl := (optStr j "refusal_tpl").getD "" }
   let o ← interpOpts ((j.getObjVal? "opts").toOption.getD .null)
   let user ← (← j.getObjVal? "user").getStr?
   let bot := optStr j "bot"
